@@ -113,6 +113,19 @@ func (t *tr) stmt(s ast.Stmt) {
 		t.deferStmt(x)
 	case *ast.GoStmt:
 		// arguments are evaluated now; the spawned function has no effect on this goroutine's state (assumption)
+		// If the spawned callee has a contract with preconditions, they are obligations at the hand-over point
+		// (`go executor.Run(task)`: the task must be WAITING when it is handed over); nothing else of the
+		// contract is applied.
+		if ct := t.resolveCall(x.Call); ct != nil && ct.sig != nil && ct.lit == nil {
+			if con := t.V.CS.Funcs[ct.key]; con != nil && len(con.clauses("requires")) > 0 {
+				t.spawnOnly = true
+				t.evCall(x.Call)
+				t.spawnOnly = false
+				t.detViolation("go", x.Pos(), "go statement")
+				t.V.note("go statement: spawned goroutine assumed not to interfere (" + t.u.Key + "); preconditions of " + ct.key + " checked at the spawn")
+				break
+			}
+		}
 		for _, a := range x.Call.Args {
 			t.ev(a)
 		}
